@@ -24,7 +24,8 @@ Definition prow_ok (tab : list N) (r : int * int * int) : bool :=
   let '(i, e) := prow_parts tab r in i && e.
 
 (* a differing row: (a, b, packed result, intersect agrees, entails agrees, the model's entails) *)
-Definition prow_diag (tab : list N) (r : int * int * int) : list (int * int * int * bool * bool * bool) :=
+Definition pi2n (i : int) : N := Z.to_N (Uint63.to_Z i).
+Definition prow_diag (tab : list N) (r : int * int * int) : list (N * N * N * bool * bool * bool) :=
   let '(a, b, re) := r in
   let '(i, e) := prow_parts tab r in
-  if i && e then [] else [(a, b, re, i, e, entails (unpack tab a) (unpack tab b))].
+  if i && e then [] else [(pi2n a, pi2n b, pi2n re, i, e, entails (unpack tab a) (unpack tab b))].
